@@ -33,6 +33,9 @@ func hullObs(stride int, g geom.T) string {
 
 func emitHull(e *Emitter, r *Rng, stride int, flat []float64) {
 	l := layoutForStride(stride)
+	if r.negZeros(flat, stride) {
+		e.tally("signed-zeros")
+	}
 	if stride == 3 && r.chance(1, 2) {
 		l = geom.XYM
 	}
